@@ -197,7 +197,36 @@ func showPfx(l []packet.PrefixInformation) string {
 	return joinOr(s, ",")
 }
 
-var projs = []string{"ret", "hdr", "slla", "omtu", "rmtu", "pfx", "rdnss", "dnssl", "ri", "rip"}
+func showRDs(l []packet.RecursiveDNSServer) string {
+	s := []string{}
+	for _, r := range l {
+		s = append(s, secs(r.Lifetime)+":"+showIPs(r.Servers))
+	}
+	return joinOr(s, ";")
+}
+func showDSs(l []packet.DNSSearchList) string {
+	s := []string{}
+	for _, d := range l {
+		n := []string{}
+		for _, x := range d.DomainNames {
+			n = append(n, hx([]byte(x)))
+		}
+		s = append(s, secs(d.Lifetime)+":"+joinOr(n, ","))
+	}
+	return joinOr(s, ";")
+}
+func showRIs(l []packet.RouteInformation) string {
+	s := []string{}
+	for _, r := range l {
+		s = append(s, fmt.Sprintf("%d/%d/%s/%s", r.PrefixLength, r.Preference, secs(r.RouteLifetime), hx(r.Prefix)))
+	}
+	return joinOr(s, ";")
+}
+func showLegacy(o packet.NewOptions) string {
+	return fmt.Sprintf("rdnss=%s dnssl=%s ri=%s rip=%s", showRD(o.RDNSS), showDS(o.DNSSearchList), showRI(o.RouteInformation), showRIP(o.RouteInformation))
+}
+
+var projs = []string{"ret", "hdr", "slla", "omtu", "rmtu", "pfx", "rdnss", "dnssl", "ri", "rip", "legacy"}
 
 func project(proj string, r icmp_spoofer.Router) string {
 	o := r.Options
@@ -215,22 +244,24 @@ func project(proj string, r icmp_spoofer.Router) string {
 	case "pfx":
 		return showPfx(r.Prefixes)
 	case "rdnss":
-		return showRD(o.RDNSS)
+		return showRDs(o.RDNSSList)
 	case "dnssl":
-		return showDS(o.DNSSearchList)
+		return showDSs(o.DNSSearchLists)
 	case "ri":
-		return showRI(o.RouteInformation)
+		return showRIs(o.Routes)
 	case "rip":
 		return showRIP(o.RouteInformation)
+	case "legacy":
+		return showLegacy(o)
 	}
 	return "badproj"
 }
 
 func showRouterAll(r icmp_spoofer.Router) string {
 	ip := r.Addr.IP.As16()
-	return fmt.Sprintf("%s %s slla=%s omtu=%d rmtu=%d pfx=%s rdnss=%s dnssl=%s ri=%s rip=%s", hx(ip[:]), showHdr(r),
-		hx(r.Options.SourceLLA.MAC), uint32(r.Options.MTU), r.MTU, showPfx(r.Prefixes), showRD(r.Options.RDNSS),
-		showDS(r.Options.DNSSearchList), showRI(r.Options.RouteInformation), showRIP(r.Options.RouteInformation))
+	return fmt.Sprintf("%s %s slla=%s omtu=%d rmtu=%d pfx=%s rdnss=%s dnssl=%s ri=%s legacy:%s", hx(ip[:]), showHdr(r),
+		hx(r.Options.SourceLLA.MAC), uint32(r.Options.MTU), r.MTU, showPfx(r.Prefixes), showRDs(r.Options.RDNSSList),
+		showDSs(r.Options.DNSSearchLists), showRIs(r.Options.Routes), showLegacy(r.Options))
 }
 
 // showTable: default router, number of routers and EVERY router record, sorted by address.
